@@ -217,6 +217,7 @@ func cover(args []string) {
 	fs := flag.NewFlagSet("cover", flag.ExitOnError)
 	stf := fs.String("states", "", "ndjson of model states with witness and completion")
 	bom := fs.Bool("bom", false, "also emit every input with a BOM prefix")
+	light := fs.Bool("light", false, "only completed inputs (w.c and w.b.c for class representatives): the accepted side, for value checks")
 	nl := fs.Bool("nl", false, "also emit every input with leading newlines / a newline-rich prefix (C09)")
 	fs.Parse(args)
 	f, err := os.Open(*stf)
@@ -268,6 +269,13 @@ func cover(args []string) {
 		}
 		if *nl && (len(w) == 0 || w[0] != 0xEF) {
 			variants = append(variants, cat([]byte("\n \n"), w))
+		}
+		if *light {
+			emit(cat(w, c), "compl:"+s.Key)
+			for _, x := range classReps {
+				emit(cat(w, []byte{x}, c), "step+c:"+s.Key)
+			}
+			continue
 		}
 		for _, v := range variants {
 			emit(v, "eof:"+s.Key)
